@@ -80,6 +80,11 @@ def handleCFM (st : St) (n : Nat) (toks : List String) : Result := Id.run do
     if (mapIDs.toArray.qsort (· < ·)).toList != (listIDs.toArray.qsort (· < ·)).toList then
       let r := fail st n "C17" s!"{file}: the witness map and the feeder list do not describe the same log IDs"
       st := r.st; outs := outs ++ r.out
+  let wit := (get "witness").getD "ok"
+  if wit.startsWith "err" || wit == "panic" then
+    let msg := (((wit.drop 4).toString |> hexOfString).map (fun b => String.fromUTF8! (ByteArray.mk b.toArray))).getD wit
+    let r := fail st n "C17" s!"{file}: witness.New refuses the map built from the shipped configuration: {msg.take 160}"
+    st := r.st; outs := outs ++ r.out
   if es.length != ((get "n").bind String.toNat?).getD 0 then
     let r := fail st n "C17" s!"{file}: entries seen by the harness and by the check differ"
     st := r.st; outs := outs ++ r.out
